@@ -21,7 +21,7 @@ func init() {
 		Level: "other",
 		Explanation: "Decided (structural necessary conditions of determinism / non-interference): (R3.1) no module function reachable from the exported API writes package-level memory after initialisation and no goroutine is started, so extractions on distinct values share no mutable memory; (R3.2) every range-over-map loop is commutative, sorted before use, or explicitly justified, so no output depends on Go's randomised map order; (R3.3) option chaining copies every configuration field (clone completeness, shared with C10). " +
 			"Not decided: byte equality of outputs itself, determinism of the standard library, races inside one Extractor shared by two goroutines.",
-		Rules: []func(*eng.Ctx){ruleGraphicsExtractorReuseEvaluated, ruleExtractorTextKeepsCharactersEvaluated, rulePoolPutCarriesNoState, ruleDecodersLeaveInput, ruleCloseClearsOnlyOwned, ruleSelectionReadonly, rulePooledObjectsStayInside, ruleRenderLeavesReader, ruleNoPkgState, ruleMapOrder, ruleCloneComplete, ruleGlobalTableAlias, ruleCheckerPerPass, ruleMemoOnSuccess, ruleParsedDictsReadOnly, ruleCacheKeyAgreement, ruleInputReadonly, ruleReadOnlyExports},
+		Rules: []func(*eng.Ctx){ruleOverlapAskedTwiceEvaluated, ruleGraphicsExtractorReuseEvaluated, ruleExtractorTextKeepsCharactersEvaluated, rulePoolPutCarriesNoState, ruleDecodersLeaveInput, ruleCloseClearsOnlyOwned, ruleSelectionReadonly, rulePooledObjectsStayInside, ruleRenderLeavesReader, ruleNoPkgState, ruleMapOrder, ruleCloneComplete, ruleGlobalTableAlias, ruleCheckerPerPass, ruleMemoOnSuccess, ruleParsedDictsReadOnly, ruleCacheKeyAgreement, ruleInputReadonly, ruleReadOnlyExports},
 	})
 }
 
